@@ -27,6 +27,7 @@ class SimStall(BaseException):
 
 
 STALL_WALL = float(os.environ.get('J1939_STALL_WALL', '10'))
+MAX_EVENTS = int(os.environ.get('J1939_MAX_EVENTS', '600000'))      # scheduler events per run (the largest legitimate scenario uses < 100000)
 
 
 class VT(int):
@@ -305,6 +306,11 @@ class Sim:
         while self.events and self.events[0][0] <= horizon:
             t, _, kind, p = heapq.heappop(self.events)
             self.progress += 1
+            if self.progress > MAX_EVENTS:
+                # an exchange that never ends (frames answering frames for ever): cut the run, the storm is part of the trace
+                self.trace.append((self.now, -1, 'STORM', self.progress))
+                self.events.clear()
+                break
             self.now = max(self.now, t)
             if kind == 'start':
                 p.switch_in()
